@@ -23,7 +23,7 @@ fn run(s: &mut Session, c: &str) -> (Stop, Vec<Ev>) {
     let mark = s.mark();
     s.enter(c);
     let mut used = 0;
-    let stop = drain_with_replies(s, &[], &mut used, 60_000);
+    let stop = drain_with_replies(s, &[], &mut used, 4_000);
     (stop, s.events_since(mark).to_vec())
 }
 
@@ -39,8 +39,8 @@ fn chars_at(text: &str, r: &std::ops::Range<usize>) -> Option<String> {
 impl Prop for C19 {
     fn cases(&self, tier: Tier) -> u64 {
         match tier {
-            Tier::Quick => 4000,
-            Tier::Thorough => 300_000,
+            Tier::Quick => 24_000,
+            Tier::Thorough => 1_500_000,
         }
     }
 
@@ -189,6 +189,11 @@ impl Prop for C19 {
         let listing = s.listing_text();
         let (st, evs) = run(&mut s, &cmd);
         if st != Stop::Stopped {
+            if what == "token-damage" {
+                // the damage produced another valid program that happens to loop
+                ctx.count("damage_gave_looping_program");
+                return;
+            }
             ctx.violation("no-stop", "diag:no-stop", "did not return to the prompt", &text);
             return;
         }
